@@ -131,6 +131,12 @@ class _BinReadHandle(object):
     def readable(self):
         return True
 
+    def fileno(self):
+        # a simulated descriptor: os.fstat() on it is answered by the os proxy
+        if getattr(self, "_fd", None) is None:
+            self._fd = self._fs.new_fd(self._path)
+        return self._fd
+
     def close(self):
         self.closed = True
 
@@ -159,6 +165,32 @@ class SimFS(object):
         self.listdir_rng = None
         self.listdir_mode = "sorted"
         self.open_counts = {}
+
+    # ---- simulated descriptors / stat -----------------------------------
+    def new_fd(self, path):
+        if not hasattr(self, "fds"):
+            self.fds = {}
+        fd = 100000 + len(self.fds)
+        self.fds[fd] = path
+        return fd
+
+    def stat(self, path):
+        import os
+        import stat as _stat
+        path = norm(path)
+        if path in self.files:
+            mode, size = _stat.S_IFREG | 0o644, len(self.files[path])
+        elif path in self.dirs:
+            mode, size = _stat.S_IFDIR | 0o755, 4096
+        else:
+            raise FileNotFoundError(errno.ENOENT, "No such file or directory", path)
+        return os.stat_result((mode, 1, 1, 1, 0, 0, size, 0, 0, 0))
+
+    def fstat(self, fd):
+        path = getattr(self, "fds", {}).get(fd)
+        if path is None:
+            raise OSError(errno.EBADF, "Bad file descriptor")
+        return self.stat(path)
 
     # ---- bookkeeping -------------------------------------------------
     def fired(self, kind):
